@@ -605,3 +605,190 @@ Proof.
   - destruct (mix_from_many O st r others Q0 st' i j l self SS Sr H) as (ins0 & P0 & sx0 & s0 & _ & _ & _ & _ & _ & L & F).
     now split.
 Qed.
+
+(* ------------------------------------------------------------------ separate_out *)
+Lemma sep_energy_lemma O st r o st' sr so s' :
+  contracts O ->
+  separate_out O st r o = Ok st' -> r <> o ->
+  sget st r = Ok sr -> sget st o = Ok so -> sget st' r = Ok s' ->
+  ~ total s' == 0 ->
+  getH O s' == getH O sr - getH O so.
+Proof.
+  intros C H Ne Sr So Sr' Hn. unfold separate_out in H. rewrite Sr, So in H. cbn [bind] in H.
+  apply Nat.eqb_neq in Ne. rewrite Ne, Sr, So in H. cbn [bind] in H. unfold bind in H.
+  dres H. rename a into self2.
+  destruct (setH O self2 (getH O sr - getH O so)) as [sa [ea|]] eqn:SH; [discriminate|].
+  injection H as <-.
+  rewrite sget_upd_same' in Sr' by (rewrite upd_length; eapply sget_lt; eauto).
+  injection Sr' as <-.
+  unfold getH at 1.
+  apply (set_with_roundtrip (Hmix O) (solveH O) _ _ _ (cH_homog _ C) (cH_spec _ C) SH Hn).
+Qed.
+
+Lemma sep_frame_lemma O st r o st' :
+  separate_out O st r o = Ok st' ->
+  length st' = length st /\ forall k, k <> r -> nth_error st' k = nth_error st k.
+Proof.
+  intros H. unfold separate_out in H. unfold bind in H.
+  dres H. dres H. dres H. dres H. dres H.
+  destruct (setH O a3 _) as [sa [ea|]]; [discriminate|]. injection H as <-.
+  destruct (r =? o)%nat.
+  - split; [now rewrite !upd_length|]. intros k Hk. now rewrite !nth_error_upd_other by auto.
+  - split; [now rewrite !upd_length|]. intros k Hk. now rewrite !nth_error_upd_other by auto.
+Qed.
+
+Lemma qsum_vsub_zero n : qsum (vsub (vzero n) (vzero n)) == 0.
+Proof.
+  induction n as [|n IH]; [reflexivity|].
+  change (vsub (vzero (S n)) (vzero (S n))) with ((0 - 0) :: vsub (vzero n) (vzero n)).
+  rewrite qsum_cons, IH. lra.
+Qed.
+Lemma qsum_vsub_zero2 n : qsum (vsub (vzero n) (vadd (vzero n) (vzero n))) == 0.
+Proof.
+  induction n as [|n IH]; [reflexivity|].
+  change (vsub (vzero (S n)) (vadd (vzero (S n)) (vzero (S n))))
+    with ((0 - (0 + 0)) :: vsub (vzero n) (vadd (vzero n) (vzero n))).
+  rewrite qsum_cons, IH. lra.
+Qed.
+Lemma list_eqb_nat_refl l : list_eqb Nat.eqb l l = true.
+Proof. induction l as [|x l IH]; simpl; auto. now rewrite Nat.eqb_refl. Qed.
+
+Lemma total_sep_empty_self s s2 : wfs s -> imol_sep (empty s) (empty s) = Ok s2 -> total s2 == 0.
+Proof.
+  intros [L _] H. unfold imol_sep in H. cbn [multi empty] in H.
+  destruct (multi s) eqn:M.
+  - rewrite list_eqb_nat_refl in H. injection H as <-. unfold total. cbn [pm empty].
+    clear L. induction (pm s) as [|pv m IH]; [reflexivity|].
+    rewrite map_cons. cbn [map2 fst snd]. rewrite pm_total_cons. cbn [snd].
+    rewrite qsum_vsub_zero, IH. lra.
+  - injection H as <-. unfold total. cbn [pm]. rewrite pm_total_cons. cbn [snd pm_total fold_right].
+    destruct (pm s) as [|pv [|? ?]] eqn:Pm; simpl in L; try discriminate.
+    unfold row1, mol_sum, ncomp, row1, vsum, empty. cbn [pm]. rewrite Pm. cbn [map fst snd fold_left].
+    unfold vzero at 3. rewrite repeat_length. fold (vzero (length (snd pv))).
+    rewrite qsum_vsub_zero2. lra.
+Qed.
+
+Lemma sep_self_lemma O st r st' s' :
+  Forall wfs st -> separate_out O st r r = Ok st' -> sget st' r = Ok s' -> getH O s' == 0.
+Proof.
+  intros W H Sr'. unfold separate_out in H. rewrite Nat.eqb_refl in H. unfold bind in H.
+  dres H. rename a into self0.
+  rewrite sget_upd_same' in H by (eapply sget_lt; eauto).
+  dres H. rename a into self2.
+  destruct (setH O self2 _) as [sa [ea|]] eqn:SH; [discriminate|]. injection H as <-.
+  rewrite sget_upd_same' in Sr' by (rewrite !upd_length; eapply sget_lt; eauto).
+  injection Sr' as <-.
+  apply prop_flow_zero.
+  rewrite (same_total _ _ (set_with_shape _ _ _ _ _ _ SH)).
+  eapply total_sep_empty_self; eauto. eapply sget_wfs; eauto.
+Qed.
+
+(* ------------------------------------------------------------------ in-repo iteration maps *)
+Lemma iter_fixed_lemma T H Hm Cnm c T' c' :
+  iter_T_at_HP T H Hm Cnm c = Ok (T', c') -> H == Hm T -> T' == T.
+Proof.
+  unfold iter_T_at_HP. destruct (refresh Cnm T c) as [c1 [cn|]]; [|discriminate].
+  destruct (qzerob cn) eqn:Z; [discriminate|]. intros E HH. injection E as <- _.
+  apply qzerob_false in Z. rewrite HH. field. exact Z.
+Qed.
+
+(* the heat capacity the step divides by *)
+Definition cn_used (Cnm : Q -> Q) (T : Q) (c : cn_cache) : option Q := snd (refresh Cnm T c).
+
+Lemma iter_affine_lemma T H Hm Cnm c T' c' a b :
+  iter_T_at_HP T H Hm Cnm c = Ok (T', c') ->
+  (forall t, Hm t == a * t + b) ->
+  (forall cn, cn_used Cnm T c = Some cn -> cn == a) ->
+  Hm T' == H.
+Proof.
+  unfold iter_T_at_HP, cn_used. destruct (refresh Cnm T c) as [c1 [cn|]]; [|discriminate].
+  destruct (qzerob cn) eqn:Z; [discriminate|]. intros E Aff Cn. injection E as <- _.
+  apply qzerob_false in Z. specialize (Cn cn eq_refl).
+  rewrite Aff, Aff. assert (Za : ~ a == 0) by (rewrite <- Cn; exact Z).
+  rewrite Cn. field. exact Za.
+Qed.
+
+Lemma iter_S_fixed_lemma expf T S Sm Cnm c T' c' :
+  (forall x, x == 0 -> expf x == 1) ->
+  iter_T_at_SP expf T S Sm Cnm c = Ok (T', c') -> S == Sm T -> T' == T.
+Proof.
+  intros Ex. unfold iter_T_at_SP. destruct (refresh Cnm T c) as [c1 [cn|]]; [|discriminate].
+  destruct (qzerob cn) eqn:Z; [discriminate|]. intros E HH. injection E as <- _.
+  apply qzerob_false in Z. rewrite Ex; [lra|]. rewrite HH. field. exact Z.
+Qed.
+
+Lemma refresh_counter Cnm T c : fst (fst (refresh Cnm T c)) = S (fst c).
+Proof. destruct c as [n cn]. reflexivity. Qed.
+
+(* the wrapper returns the Newton step from flexsolve's answer when the polish is skipped *)
+Lemma solve_wrapper_lemma aitken secant tol H Tguess Hm Cnm T a b Tg c :
+  solve_T_at_HP aitken secant tol H Tguess Hm Cnm = Ok T ->
+  aitken Tguess = Ok (Tg, c) ->
+  (forall t, Hm t == a * t + b) ->
+  (forall cn, cn_used Cnm Tg c = Some cn -> cn == a) ->
+  (exists T1, T1 == Tg + (H - Hm Tg) / a /\ Hm T1 == H /\
+     (qltb tol (Qabs (T1 - Tg)) = false -> T = T1) /\
+     (qltb tol (Qabs (T1 - Tg)) = true -> secant Tg T1 = Ok T)).
+Proof.
+  unfold solve_T_at_HP. intros S A Aff Cn. rewrite A in S. cbn [bind] in S.
+  destruct (iter_T_at_HP Tg H Hm Cnm c) as [[T1 c1]|] eqn:I; [|discriminate]. cbn [bind fst] in S.
+  exists T1. split; [|split; [|split]].
+  - unfold iter_T_at_HP, cn_used in *. destruct (refresh Cnm Tg c) as [c2 [cn|]]; [|discriminate].
+    destruct (qzerob cn) eqn:Z; [discriminate|]. injection I as <- _.
+    apply qzerob_false in Z. specialize (Cn cn eq_refl).
+    assert (Za : ~ a == 0) by (rewrite <- Cn; exact Z).
+    rewrite Cn. reflexivity.
+  - eapply iter_affine_lemma; eauto.
+  - intros F. rewrite F in S. now injection S.
+  - intros F. now rewrite F in S.
+Qed.
+
+(* ------------------------------------------------------------------ the linear stub satisfies the contracts *)
+Lemma vdot_cons a x b y : vdot (a :: x) (b :: y) = a * b + vdot x y.
+Proof. reflexivity. Qed.
+Lemma vdot_vdivs cn v k : ~ k == 0 -> vdot cn (vdivs v k) * k == vdot cn v.
+Proof.
+  intros Hk. revert v. induction cn as [|a cn IH]; intros [|x v]; try (unfold vdot, vmul, vdivs, qsum; simpl; lra).
+  change (vdivs (x :: v) k) with ((x / k) :: vdivs v k). rewrite !vdot_cons.
+  rewrite <- (IH v). field. exact Hk.
+Qed.
+Lemma vdot_vzero cn n : vdot cn (vzero n) == 0.
+Proof.
+  revert n. induction cn as [|a cn IH]; intros [|n]; try (unfold vdot, vmul, vzero, qsum; simpl; lra).
+  change (vzero (S n)) with (0 :: vzero n). rewrite vdot_cons, IH. lra.
+Qed.
+
+Lemma xsum_lin cn Tref m T P : xsum (lin_H cn Tref) m T P == lin_Cn cn m * (T - Tref).
+Proof.
+  induction m as [|pv m IH]; [simpl; lra|].
+  rewrite xsum_cons. unfold lin_Cn. cbn [fold_right]. fold (lin_Cn cn m). rewrite IH. unfold lin_H. lra.
+Qed.
+
+Lemma lin_solve_value cn Tref m h Tg P T' :
+  lin_solve cn Tref m h Tg P = Ok T' ->
+  ~ lin_Cn cn m == 0 /\ T' == Tg + (h - lin_Cn cn m * (Tg - Tref)) / lin_Cn cn m.
+Proof.
+  unfold lin_solve, iter_T_at_HP, refresh. simpl Nat.eqb. cbv iota.
+  destruct (qzerob (lin_Cn cn m)) eqn:Z; [discriminate|]. cbn [bind fst]. intros E; injection E as <-.
+  apply qzerob_false in Z. split; [exact Z|]. rewrite xsum_lin. reflexivity.
+Qed.
+
+Lemma lin_contracts cn hf Tref : contracts (lin_oracles cn hf Tref).
+Proof.
+  constructor; cbn [Hmix Smix solveH solveS lin_oracles].
+  - intros p v k T P Hk. unfold lin_H. rewrite <- (vdot_vdivs cn v k Hk). lra.
+  - intros p v k T P Hk. lra.
+  - intros p n T P. unfold lin_H. rewrite vdot_vzero. lra.
+  - intros m x Tg P T' S. apply lin_solve_value in S. destruct S as [Z ET].
+    rewrite xsum_lin, ET. field. exact Z.
+  - intros m x Tg P T' S. discriminate.
+Qed.
+
+Lemma lin_solve_fix cn Tref :
+  forall m x T P, ~ lin_Cn cn m == 0 -> xsum (lin_H cn Tref) m T P == x ->
+  exists T', lin_solve cn Tref m x T P = Ok T' /\ T' == T.
+Proof.
+  intros m x T P Z X. unfold lin_solve, iter_T_at_HP, refresh. simpl Nat.eqb. cbv iota.
+  pose proof Z as Z'. apply qzerob_false in Z'. rewrite Z'. cbn [bind fst].
+  eexists. split; [reflexivity|]. rewrite X. field. exact Z.
+Qed.
